@@ -1,5 +1,5 @@
 CONSTANTS
-  HeadVariants = {1, 4, 5}
+  HeadVariants = {1, 4, 6}
   PixVariants = {1, 2, 3, 4, 5, 6, 7, 8, 9}
   WithPreamble = {FALSE}
   Files <- AllFiles
